@@ -1,6 +1,7 @@
 package main
 
 import (
+	"bytes"
 	"encoding/json"
 	"fmt"
 	"strings"
@@ -10,6 +11,9 @@ import (
 	"github.com/MichaelMure/git-bug/entity"
 	"github.com/MichaelMure/git-bug/entity/dag"
 	"github.com/MichaelMure/git-bug/repository"
+	"github.com/ProtonMail/go-crypto/openpgp"
+	"github.com/ProtonMail/go-crypto/openpgp/armor"
+	"github.com/ProtonMail/go-crypto/openpgp/packet"
 )
 
 func init() { props["C07"] = runC07 }
@@ -90,6 +94,12 @@ func validBugHistory(r *rng, authors []identity.Interface, n int) ([]*rawCommit,
 			raws = append(raws, m)
 		}
 		opsJ = append(opsJ, raws)
+		if k == 0 {
+			// the id of the entity is the hash of its first operation as stored: the element of the
+			// "ops" array as the blob below renders it (a map: sorted keys), not as the struct would
+			b0, _ := json.Marshal(raws[0])
+			id = entity.DeriveId(b0)
+		}
 		blob, _ := json.Marshal(map[string]any{"author": map[string]any{"id": string(a.Id())}, "ops": raws})
 		entries := []rawEntry{{name: fmt.Sprintf("version-%d", bugFormatVersion)}, {name: "ops", blob: blob}, {name: fmt.Sprintf("edit-clock-%d", clock)}}
 		if k == 0 {
@@ -310,6 +320,20 @@ var c07Catalogue = []c07Mutation{
 		})
 	}, true},
 	// ---- history
+	// the last commit becomes a merge commit (two parents, no operation) whose edit clock is not after its parents'
+	{"merge-clock-not-after-parents", func(r *rng, cs []*rawCommit, _ []identity.Interface) {
+		if len(cs) < 3 {
+			return
+		}
+		c, p := cs[len(cs)-1], cs[len(cs)-2]
+		c.parents = []int{len(cs) - 2, len(cs) - 3}
+		mutateBlob(c, func(m map[string]any) any { m["ops"] = []any{}; return m })
+		pe := p.entries[entryIdx(p, "edit-clock-")].name
+		if r.chance(1, 2) {
+			pe = cs[0].entries[entryIdx(cs[0], "edit-clock-")].name // below both parents
+		}
+		c.entries[entryIdx(c, "edit-clock-")].name = pe
+	}, true},
 	{"two-roots", func(r *rng, cs []*rawCommit, _ []identity.Interface) {
 		if len(cs) > 1 {
 			cs[len(cs)-1].parents = nil
@@ -502,10 +526,12 @@ func c07Merge(c *runCtx, r *rng, mut c07Mutation, authors0 []identity.Interface)
 		beforeOps := readAllBugOps(repo)
 		var status entity.MergeStatus
 		var merr error
+		reason := ""
 		crashed := recoverTo(func() {
 			for res := range bug.MergeAll(repo, resolversFor(repo), "origin", authors[0]) {
 				status = res.Status
 				merr = res.Err
+				reason = res.Reason
 			}
 		})
 		if merr != nil {
@@ -532,6 +558,18 @@ func c07Merge(c *runCtx, r *rng, mut c07Mutation, authors0 []identity.Interface)
 		}
 		if mut.mustRefuse && !remoteReadable && status != entity.MergeStatusInvalid && !(situation == "local-ahead" && false) {
 			c.violation(c.nCases, "C07/not-reported-invalid", fmt.Sprintf("an unreadable remote bug (mutation %q, local %s) was reported %s", mut.name, situation, mergeStatusName(status)), nil)
+		}
+		// a well-formed remote is taken
+		if mut.name == "none" {
+			want := map[string]entity.MergeStatus{"absent": entity.MergeStatusNew, "equal-prefix": entity.MergeStatusUpdated,
+				"local-ahead": entity.MergeStatusNothing, "diverged": entity.MergeStatusUpdated}
+			if w, ok := want[situation]; ok && status != w {
+				c.violation(c.nCases, "C07/refused-valid", fmt.Sprintf("a well-formed remote bug (local %s) was reported %s instead of %s: %s %v", situation, mergeStatusName(status), mergeStatusName(w), reason, merr), nil)
+			}
+		}
+		// malformed whatever the reader says (the judgement above asks the implementation's own reader)
+		if mut.name == "merge-clock-not-after-parents" && len(remoteCs) >= 3 && status != entity.MergeStatusInvalid {
+			c.violation(c.nCases, "C07/not-reported-invalid", fmt.Sprintf("a remote history whose merge commit's edit clock is not after its parents' (local %s) was reported %s", situation, mergeStatusName(status)), nil)
 		}
 		if mut.name == "ops-empty-everywhere" && status != entity.MergeStatusInvalid {
 			c.violation(c.nCases, "C07/empty-history-accepted", fmt.Sprintf("a remote history without any operation (local %s) was reported %s", situation, mergeStatusName(status)), nil)
@@ -620,6 +658,11 @@ func c07Identities(c *runCtx) {
 		{name: "keys-garbage", blob: func(r *rng, v []byte) []byte {
 			return []byte(strings.Replace(string(v), `"nonce":`, `"pub_keys":[`+pickOne(r, []string{`"garbage"`, `5`, `null`, `{"a":1}`, `"-----BEGIN PGP PUBLIC KEY BLOCK-----\n\nAAAA\n-----END PGP PUBLIC KEY BLOCK-----"`})+`],"nonce":`, 1))
 		}},
+		// a correctly armored "PGP PUBLIC KEY BLOCK" that holds a valid OpenPGP packet of another kind
+		{name: "keys-wrong-packet", blob: func(r *rng, v []byte) []byte {
+			q, _ := json.Marshal(c07ArmoredPacket(r.intn(3)))
+			return []byte(strings.Replace(string(v), `"nonce":`, `"pub_keys":[`+string(q)+`],"nonce":`, 1))
+		}},
 		{name: "name-control-char", blob: func(r *rng, v []byte) []byte {
 			return []byte(strings.Replace(string(v), `"name":"`, `"name":"\u0000`, 1))
 		}},
@@ -702,4 +745,31 @@ func c07Identities(c *runCtx) {
 			}
 		}
 	}
+}
+
+// c07ArmoredPacket: an armored block of type PGP PUBLIC KEY BLOCK whose content is a well-formed
+// packet that is not a public key (a user id, a private key, a signature).
+func c07ArmoredPacket(kind int) string {
+	var buf bytes.Buffer
+	w, err := armor.Encode(&buf, openpgp.PublicKeyType, nil)
+	if err != nil {
+		panic(err)
+	}
+	ent, err := openpgp.NewEntity("x", "", "x@example.com", &packet.Config{Algorithm: packet.PubKeyAlgoEdDSA})
+	if err != nil {
+		panic(err)
+	}
+	switch kind {
+	case 0:
+		packet.NewUserId("somebody", "", "s@example.com").Serialize(w)
+	case 1:
+		ent.PrivateKey.Serialize(w)
+	default:
+		for _, id := range ent.Identities {
+			id.SelfSignature.Serialize(w)
+			break
+		}
+	}
+	w.Close()
+	return buf.String()
 }
